@@ -131,6 +131,51 @@ Theorem C20_result_total : forall exec_is_bigmachine reg tasks,
 Proof. exact result_total. Qed.
 Print Assumptions C20_result_total.
 
+(* ---- tasks that run more than once (Result.Discard, then recomputation) ----
+   local executor: the scope is reset before EVERY run, so the total counts each
+   task's last run once, whatever the number of runs *)
+Theorem C20_result_total_local_runs : forall reg tasks,
+  (forall runs, In runs tasks -> runs_ok reg runs) ->
+  exists w, run_local_runs reg tasks = (w, Ok tt) /\ wf w /\
+  forall m, (m < reg)%nat -> peek w 0 m = wrap (sum_incs m (last_runs tasks)).
+Proof. exact result_total_local_runs. Qed.
+
+Theorem C20_result_total_after_recompute : forall reg tasks,
+  (forall runs, In runs tasks -> runs_ok reg runs) ->
+  exists w w', run_local_runs reg tasks = (w, Ok tt) /\
+               run_local reg (map (fun runs => last runs []) tasks) = (w', Ok tt) /\
+  forall m, (m < reg)%nat -> peek w 0 m = peek w' 0 m.
+Proof. exact result_total_after_recompute. Qed.
+
+(* bigmachine: the same holds if the worker resets its task scope before a run
+   (the repaired code) or if no task runs twice ... *)
+Theorem C20_result_total_bigmachine_runs : forall (wr : bool) reg tasks,
+  (wr = true \/ forall runs, In runs tasks -> (length runs <= 1)%nat) ->
+  (forall runs, In runs tasks -> runs_ok reg runs) ->
+  exists w, run_bigmachine_runs wr reg tasks = (w, Ok tt) /\ wf w /\
+  forall m, (m < reg)%nat -> peek w 0 m = wrap (sum_incs m (last_runs tasks)).
+Proof. exact result_total_bigmachine_runs. Qed.
+
+(* ... and is FALSE of the code as it is: worker.Run never resets the worker-side
+   task scope, so a task re-run by the same worker is counted once per run *)
+Theorem C20_bigmachine_recompute_overcounts_refuted :
+  exists tasks,
+    (forall runs, In runs tasks -> runs_ok 2 runs) /\
+    let '(w, r) := run_bigmachine_runs false 2 tasks in
+    r = Ok tt /\ peek w 0 1 = 42 /\ wrap (sum_incs 1 (last_runs tasks)) = 21.
+Proof. exact bigmachine_recompute_overcounts_refuted. Qed.
+
+(* the model the correspondence uses follows the switch goparams reads from worker.Run *)
+Theorem C20_hist_total : forall bigm reg tasks,
+  (bigm = false \/ worker_run_resets_scope = true \/
+   forall runs, In runs tasks -> (length runs <= 1)%nat) ->
+  (forall runs, In runs tasks -> runs_ok reg runs) ->
+  exists w, hist_model bigm reg tasks = (w, Ok tt) /\
+  forall m, (m < reg)%nat -> peek w 0 m = wrap (sum_incs m (last_runs tasks)).
+Proof. exact hist_total. Qed.
+Print Assumptions C20_result_total_after_recompute.
+Print Assumptions C20_hist_total.
+
 (* ---- the checker applied to the implementation is satisfied by the model ---- *)
 Theorem C20_model_case_ok : forall reg ns os,
   ops_ok reg ns os -> forall blind, case_ok (COps blind reg ns (observe (init reg ns) os)) = true.
